@@ -108,7 +108,11 @@ func main() {
 	out := flag.String("out", "", "")
 	flag.Int64("seed", 1, "")
 	big := flag.Bool("big", false, "file A is 3 MiB (read concurrently by several upstream requests)")
+	samename := flag.Bool("samename", false, "the two files carry the same client file name (two cameras' IMG_0001.jpg): they are still two files")
 	flag.Parse()
+	if *samename {
+		contents["B"] = [2]string{contents["A"][0], contents["B"][1]}
+	}
 	if *big {
 		r := rand.New(rand.NewSource(7))
 		b := make([]byte, 3<<20)
